@@ -730,12 +730,18 @@ def run(ctx):
             nfiles, maxreq = 1, 32768
             ops = ([("pipe", 0, 1)] + [("write", 0, b"x")] * 60 + [("sync",)] + [("write", 0, b"y")] * 60 +
                    [("serve", 200)] + [("write", 0, b"z")] * 5 + [("close", 0)])
+        elif ci == 1:  # designed: three pipelined writes answered newest first, then another request reads them
+            nfiles, maxreq = 1, 32768
+            ops = [("pipe", 0, 1), ("write", 0, b"a"), ("write", 0, b"b"), ("write", 0, b"c"), ("serve", 3),
+                   ("deliver", 2), ("deliver", 2), ("sync",), ("close", 0)]
         obs, dest, _sw = c29.lockstep_case(rng, nfiles, maxreq, [], [], ops)
-        case = {"nfiles": nfiles, "maxreq": maxreq, "nops": len(ops)}
+        case = {"nfiles": nfiles, "maxreq": maxreq, "nops": len(ops),
+                "ops": [[o[0]] + [hx(x) if isinstance(x, bytes) else x for x in o[1:]] for o in ops][:40]}
         ctx.case(("lock", repr(ops)), True)
         ctx.dist("client-lockstep")
         if any(o == "hang" for o, _ in obs):
-            ctx.fail("client-hangs", case, "the client reads from an empty queue with nothing outstanding after op #%d"
+            ctx.fail("client-hangs", case, "op #%d never returns although the server answered every request exactly once "
+                     "(the client waits with nothing outstanding, or spins for an extent nobody will register)"
                      % (len(obs) - 1))
         lreqs.append("init %d %d - -" % (maxreq, nfiles))
         lchecks.append((len(lreqs) - 1, None, ci))
@@ -815,7 +821,8 @@ META = {
               "and its helpers can emit is valid for that branch (table regenerated from the AST each run: "
               "source_branches_emit_valid_types), and the model stays within that table. Client: no call ever waits "
               "with nothing outstanding, for every program mixing pipelined writes, plain writes, other requests and "
-              "closes (client_never_waits_forever); under channel back-pressure, with the client lock and the two flow-controlled "
+              "closes, with answers overtaking each other (client_never_waits_forever over Op.deliver; the code matches a "
+              "write's answer by membership in _reqs: source_write_status_matched_by_id, AST); under channel back-pressure, with the client lock and the two flow-controlled "
               "directions as resources, no reachable state is stuck before everything is done and every step uses up work "
               "(client_never_blocks_under_backpressure, backpressure_steps_decrease_work) — given the source fact, read "
               "from the AST each run, that _async_request sends the packet outside the _lock region "
